@@ -26,6 +26,10 @@
 (*                    []value.Value group move to fresh cells;             *)
 (*   SetPresent / SetAbsent  an optional operand (ret value, alloca count,  *)
 (*                    unwind target) is assigned / set to nil;             *)
+(*   CopyStruct       dup := *inst right after a query; from then on the *)
+(*                    copy is observed: the operands in fields of the      *)
+(*                    struct live in fresh cells                            *)
+(*                    (slice elements and helper structs stay shared);      *)
 (*   AppendRep / RemoveRep  one repetition of a repeated group is appended /     *)
 (*                    removed (the configuration changes).                 *)
 (*                                                                         *)
@@ -41,7 +45,9 @@
 (* non-target operand is a literal constant lists only the feasible        *)
 (* target, "ops-succs": Succs() is derived from the label-typed operands,  *)
 (* so a block passed as a call argument or bundle input of an invoke /     *)
-(* callbr shows up as a successor).                                         *)
+(* callbr shows up as a successor), "struct-ops": a fixed-arity kind keeps  *)
+(* the slot list of its first Operands() call inside the struct, so a      *)
+(* struct copy hands out the slots of the original).                       *)
 (* Value classes (constant Classes): with Classes = TRUE (terminators      *)
 (* only) an operand that admits any value may hold, from the start or by   *)
 (* a write through its slot, the literal constant "k" instead of an SSA    *)
@@ -92,7 +98,11 @@ Wrapped(i) == "wrap-args" \in Dev /\ c.wrap /\ c.ops[i].role = "arg"
 ExposedIdx == SelectSeq([i \in 1..N |-> i], LAMBDA i : ~Hidden(i))
 FreshSlots == [p \in 1..Len(ExposedIdx) |-> addr[ExposedIdx[p]]]
 \* the slot list an Operands() call returns now
-OperandsNow == IF "cache-ops" \in Dev /\ cacheO.set /\ Len(cacheO.v) = Len(FreshSlots) THEN cacheO.v ELSE FreshSlots
+\* (deviation struct-ops: a kind without repeated groups keeps the slot list of its first Operands() call in the struct)
+FixedArity == \A gi \in 1..Len(e.groups) : e.groups[gi].ar \notin {"many", "many1", "bundles"}
+OperandsNow == IF "cache-ops" \in Dev /\ cacheO.set /\ Len(cacheO.v) = Len(FreshSlots) THEN cacheO.v
+               ELSE IF "struct-ops" \in Dev /\ cacheO.set /\ FixedArity /\ Len(cacheO.v) = Len(FreshSlots) THEN cacheO.v
+               ELSE FreshSlots
 Remember == cacheO' = [set |-> TRUE, v |-> Tup(OperandsNow)]
 \* what a client sees in a cell: the wrapper for a wrapped argument
 IsWrapperCell(cell) == \E i \in 1..N : addr[i] = cell /\ Wrapped(i)
@@ -193,6 +203,17 @@ SwapSlice ==
        /\ last' = [op |-> "swap", slot |-> i]
   /\ UNCHANGED <<c, cacheS, cacheO, out>>
 
+\* dup := *inst (a struct copy; the library has no Clone): the user under observation is from now on the
+\* COPY.  The operands held in fields of the struct itself live in fresh cells with the same values; slice
+\* elements and helper structs (reached through pointers) are shared with the original, as Go copies them.
+\* Everything unexported that the struct remembers (cacheS, cacheO) is copied along.
+OwnField(x) == ~Repeated(x) /\ c.ops[x].role \notin StructRoles
+CopyStruct ==
+  /\ Call /\ last.op \in {"ops", "succs"}      \* (only right after a query: the struct is primed; keeps the state space small)
+  /\ Move({x \in 1..N : OwnField(x)}, 0, "n")
+  /\ last' = [op |-> "copy", slot |-> 0]
+  /\ UNCHANGED <<c, cacheS, cacheO, out>>
+
 \* Append / Remove one repetition of group gi: the configuration changes
 Start(gi) == LET before == {x \in 1..N : GroupOf(x) < gi} IN Cardinality(before)
 Resize(gi, d, kinds) ==
@@ -220,7 +241,7 @@ SetAbsent == /\ Call /\ \E gi \in 1..Len(E.groups) : Resize(gi, -1, {"opt"}) /\ 
            /\ UNCHANGED <<cacheS, cacheO, out>>
 
 Next == PickKind \/ PickCase \/ Place \/ QuerySuccs \/ QueryOperands \/ ReplaceOperand \/ ReplaceAllUses
-        \/ DirectAssign \/ ReplaceElem \/ SwapSlice \/ AppendRep \/ RemoveRep \/ SetPresent \/ SetAbsent
+        \/ DirectAssign \/ ReplaceElem \/ SwapSlice \/ AppendRep \/ RemoveRep \/ SetPresent \/ SetAbsent \/ CopyStruct
 Spec == Init /\ [][Next]_vars
 
 ----------------------------------------------------------------------------
